@@ -33,8 +33,8 @@ RULE = ("program case = 10-14 (quick) / 20-40 (thorough) ops drawn with weights 
 CASES = {"quick": 48, "thorough": 400}
 BUDGET_S = {"quick": 150, "thorough": 600}
 MIN_EVALS = {"quick": 250, "thorough": 1500}
-FLOORS = {"quick": {"bound_commit_ok": 25, "order_monitor": 25, "refusal_unchanged": 15, "ood_same_revno": 3, "local_commit": 10, "update_sync": 20, "pull_sync": 8, "fault_runs": 60, "fault_after_master_before_local": 10},
-          "thorough": {"bound_commit_ok": 150, "order_monitor": 150, "refusal_unchanged": 100, "ood_same_revno": 15, "local_commit": 80, "update_sync": 150, "pull_sync": 50,
+FLOORS = {"quick": {"bound_commit_ok": 25, "order_monitor": 25, "refusal_unchanged": 15, "ood_same_revno": 3, "local_commit": 10, "update_sync": 20, "pull_sync": 8, "pull_stop_below_tip": 3, "race_refused": 3, "fault_runs": 60, "fault_after_master_before_local": 10},
+          "thorough": {"bound_commit_ok": 150, "order_monitor": 150, "refusal_unchanged": 100, "ood_same_revno": 15, "local_commit": 80, "update_sync": 150, "pull_sync": 50, "pull_stop_below_tip": 20, "race_refused": 20,
                        "fault_runs": 400, "fault_after_master_before_local": 40}}
 ASSUMPTIONS = ["the model's ancestry relation is computed from the parents the harness itself observed at each commit",
                "fault model: one TransportError-class exception instead of the k-th mutating transport operation, or a process stop before it (C04's crash model); "
@@ -182,7 +182,7 @@ def _tipwrites(log):
 
 OPS = [("commit:c1", 7), ("commit:c2", 7), ("commit:m", 3), ("commit:lw", 3), ("commit-local:c1", 3), ("commit-local:c2", 3),
        ("update:c1", 4), ("update:c2", 4), ("update:m", 2), ("update:lw", 2), ("pull-master:c1", 2), ("pull-master:c2", 2),
-       ("pull-sibling:c1", 2), ("pull-sibling:c2", 2), ("unbind:c1", 1), ("unbind:c2", 1), ("bind:c1", 2), ("bind:c2", 2), ("tag:c1", 1), ("tag:c2", 1)]
+       ("pull-sibling:c1", 2), ("pull-sibling:c2", 2), ("pull-sibling-stop:c1", 1), ("pull-sibling-stop:c2", 1), ("race:c1", 1), ("race:c2", 1), ("unbind:c1", 1), ("unbind:c2", 1), ("bind:c1", 2), ("bind:c2", 2), ("tag:c1", 1), ("tag:c2", 1)]
 
 
 def _classify(fn):
@@ -254,6 +254,18 @@ def program_case(ctx):
             c = rng.choice(CHECKOUTS)
             op, t = "update", c
             queue.extend([("commit", c), ("tag", c), ("pull-sibling", "c2" if c == "c1" else "c1")])
+        elif rng.random() < 0.07:
+            # macro: the sibling gets two or three local commits ahead, then this checkout pulls from it up to a revision below its tip
+            c = rng.choice(CHECKOUTS)
+            o = "c2" if c == "c1" else "c1"
+            op, t = "update", c
+            queue.extend([("update", o)] + [("commit-local", o)] * rng.randint(2, 3) + [("pull-sibling-stop", c)])
+        elif rng.random() < 0.07:
+            # macro: both checkouts in step with the master, then one commits while the other's commit is between its unlocked
+            # comparison with the master and taking the master's lock
+            c = rng.choice(CHECKOUTS)
+            op, t = "update", c
+            queue.extend([("update", "c2" if c == "c1" else "c1"), ("race", c)])
         lagging = [c for c in CHECKOUTS if mdl.bound[c] and mdl.rel(c) in ("ahead", "diverged")]
         if lagging and not queue and rng.random() < 0.3:
             op, t = "update", rng.choice(lagging)  # local commits waiting to become pending merges
@@ -274,6 +286,10 @@ def program_case(ctx):
                 _do_pull(ctx, rng, w, mdl, t, "m", before, detail)
             elif op == "pull-sibling":
                 _do_pull(ctx, rng, w, mdl, t, "c2" if t == "c1" else "c1", before, detail)
+            elif op == "pull-sibling-stop":
+                _do_pull(ctx, rng, w, mdl, t, "c2" if t == "c1" else "c1", before, detail, stop=True)
+            elif op == "race":
+                _do_race(ctx, rng, w, mdl, t, "c2" if t == "c1" else "c1", before, detail)
             elif op == "unbind":
                 if mdl.bound[t]:
                     w.tree(t).branch.unbind()
@@ -421,16 +437,25 @@ def _do_update(ctx, rng, w, mdl, t, before, detail):
     ctx.note(("update", t, mdl.bound.get(t), rel, bool(nconf), via, len(before["parents"][t])), nontrivial=t in CHECKOUTS and rel != "equal")
 
 
-def _do_pull(ctx, rng, w, mdl, t, src, before, detail):
+def _do_pull(ctx, rng, w, mdl, t, src, before, detail, stop=False):
     from breezy.branch import Branch
 
     rel = mdl.rel(t)
     src_tip = mdl.tip[src]
+    stop_rev = None
+    if stop:
+        # pull -r: a left-hand ancestor of the source's tip that the target does not have yet (if there is one)
+        lh = [r for r in H.lefthand(mdl.pm, src_tip) if r != H.NULL and not mdl.anc(r, mdl.tip[t])]
+        below = [r for r in lh if r != src_tip]
+        if below:
+            stop_rev = rng.choice(below)
+            src_tip = stop_rev
+            ctx.count("pull_stop_below_tip")
     sb = Branch.open(w.world.url(w.p[src]))
     wt = w.tree(t)
-    out, _ = _classify(lambda: wt.pull(sb))
+    out, _ = _classify(lambda: wt.pull(sb, stop_revision=stop_rev) if stop_rev is not None else wt.pull(sb))
     after = w.observe()
-    detail = dict(detail, source=src, outcome=out, relation_before=rel)
+    detail = dict(detail, source=src, outcome=out, relation_before=rel, stop_revision=stop_rev.decode() if stop_rev else None)
     ctx.hist("pull:%s:%s:%s" % ("master" if src == "m" else "sibling", rel, out))
     try:
         gen.resolve_all(w.tree(t))
@@ -475,6 +500,81 @@ def _do_pull(ctx, rng, w, mdl, t, src, before, detail):
     for b in mdl.tip:
         mdl.tip[b] = after["tip"][b][1]
     ctx.note(("pull", t, src, mdl.bound[t], rel, out, mdl.rel(src) if src != "m" else "-"), nontrivial=rel != "equal" or src != "m")
+
+
+def _do_race(ctx, rng, w, mdl, a, b, before, detail):
+    """Checkout `a` commits; when it is about to take the master's branch lock (after its unlocked comparison of local and master
+    tips) checkout `b` - another process in reality - commits through the master.  The master has moved: a's commit must be refused
+    and change nothing; whatever happens, an accepted revision never drops out of the master's history."""
+    if not (mdl.bound[a] and mdl.bound[b] and mdl.rel(a) == "equal" and mdl.rel(b) == "equal"
+            and before["parents"][a][:1] == [mdl.tip["m"]] and before["parents"][b][:1] == [mdl.tip["m"]]
+            and len(before["parents"][a]) == 1 and len(before["parents"][b]) == 1):
+        ctx.hist("race:precondition-not-met")
+        return
+    mdl.n += 1
+    _edit(w, a, rng, mdl.n)
+    rev_a = b"%s-%d" % (a.encode(), mdl.n)
+    mdl.n += 1
+    _edit(w, b, rng, mdl.n)
+    rev_b = b"%s-%d" % (b.encode(), mdl.n)
+    old_tip = mdl.tip["m"]
+    state = {"fired": False, "out_b": None, "mid": None}
+
+    def before_op(ev):
+        if state["fired"] or ev.actor != "A" or ev.op != "mkdir" or not ev.path.startswith("m/.bzr/branch/lock"):
+            return
+        state["fired"] = True
+        with w.world.actor("B"):
+            wtb = w.tree(b)
+            state["out_b"], _ = _classify(lambda: wtb.commit("racing commit in %s" % b, rev_id=rev_b))
+        from breezy.branch import Branch
+
+        state["mid"] = {k: Branch.open(w.p[k]).last_revision_info() for k in ("m", "c1", "c2")}
+
+    w.world.before = before_op
+    try:
+        wta = w.tree(a)
+        out_a, _ = _classify(lambda: wta.commit("commit in %s raced by %s" % (a, b), rev_id=rev_a))
+    finally:
+        w.world.before = None
+    after = w.observe()
+    detail = dict(detail, outcome_a=out_a, outcome_b=state["out_b"], mid=repr(state["mid"]), tips_after=repr(after["tip"]))
+    if not state["fired"]:
+        ctx.hist("race:hook-not-reached")
+        for k in mdl.tip:
+            mdl.tip[k] = after["tip"][k][1]
+        if out_a == "ok":
+            mdl.pm[rev_a] = (old_tip,)
+        return
+    ctx.count("race_runs")
+    ctx.hist("race:%s/%s" % (out_a, state["out_b"]))
+    if state["out_b"] == "ok":
+        mdl.pm[rev_b] = (old_tip,)
+    if out_a == "ok":
+        mdl.pm[rev_a] = (old_tip,) if state["out_b"] != "ok" else tuple(after["parents"][a][:0]) or (old_tip,)
+    if state["out_b"] == "ok":
+        ctx.check(state["mid"]["m"][1] == rev_b and state["mid"][b][1] == rev_b, "race:racer-commit:tips", "racing bound commit returned but tips are %r" % (state["mid"],), detail)
+        # the master moved under a's feet: the statement demands a refusal that changes nothing
+        if out_a == "ok":
+            ctx.fail("race:commit-accepted-although-master-moved", "commit in %s was accepted although %s had moved the master between its comparison and its lock; master %r" % (
+                a, b, after["tip"]["m"]), detail)
+        else:
+            ctx.count("race_refused")
+            ctx.check(after["tip"]["m"] == state["mid"]["m"] and after["tip"][a] == state["mid"][a] and after["tip"][b] == state["mid"][b],
+                      "race:refused-but-tip-moved", "commit refused with %s but tips went %r -> %r" % (out_a, state["mid"], after["tip"]), detail)
+            ctx.check(rev_a not in after["revs"]["m"], "race:refused-but-revision-in-master", "refused revision %r is in the master repository" % rev_a, detail)
+        # an accepted revision never drops out of the master's left-hand history
+        with w.master_branch().lock_read():
+            pass
+        from breezy.branch import Branch
+
+        mb = Branch.open(w.p["m"])
+        with mb.lock_read():
+            hist = set(mb.repository.get_graph().iter_lefthand_ancestry(mb.last_revision(), [H.NULL]))
+        ctx.check(rev_b in hist, "race:accepted-revision-dropped-from-master", "revision %r was accepted by the master and is no longer in its history (tip %r)" % (rev_b, after["tip"]["m"]), detail)
+    for k in mdl.tip:
+        mdl.tip[k] = after["tip"][k][1]
+    ctx.note(("race", a, out_a, state["out_b"]), nontrivial=True)
 
 
 # ---------------------------------------------------------------- fault half
